@@ -1061,6 +1061,9 @@ pub fn get_limit(params: &EntityParams, prepared_query: &mut SingleQuery) -> Str
             let val = val.as_i64().unwrap();
             if val != 0 {
                 query.push_str(&format!("LIMIT {}", val));
+            } else if params.skip.is_some() {
+                // OFFSET is only valid after LIMIT; -1 means no limit
+                query.push_str("LIMIT -1");
             }
         }
     }
